@@ -19,6 +19,7 @@ import SigModel.Model.Trace
 import SigModel.Lemmas.C12b
 import SigModel.Lemmas.C12d
 import SigModel.Lemmas.C12e
+import SigModel.Lemmas.C12f
 
 namespace SigModel.Props.C12
 open SigModel.Trace SigModel.Lemmas.C12 List
@@ -200,13 +201,21 @@ theorem quickSelect_eq_sorted_get (arr : List Nat) (k : Nat) (hk : k < arr.lengt
 /-- the caller's slice is permuted, never changed as a multiset (the RED fold reuses it four times) -/
 theorem select_keeps_elements (arr : List Nat) : afterSelect arr ~ arr := afterSelect_perm arr
 
-/-- C12.2b the percentile exactly as coded: with the float64 index `k = p·(n−1)/100`, the result is the
-interpolation `lower + (upper − lower)·(k − ⌊k⌋)` (each operation rounded to float64) between the
-⌊k⌋-th and ⌈k⌉-th smallest elements — under the guard that ⌈k⌉ is a valid index. -/
+/-- C12.2b the index formula exactly as coded: `k = float64(p·(n−1)) / float64(100)` (IEEE-754 division),
+`floorK = ⌊k⌋`, `ceilK = ⌈k⌉`: for every p ≤ 100 and every array of n < 2^52/100 elements both indices are
+valid (float rounding never pushes ⌈k⌉ beyond n−1), so the selection never indexes out of range. -/
+theorem percentile_index_in_range (p n : Nat) (hp : p ≤ 100) (hn : 0 < n) (hbig : 100 * n < 2 ^ 52) :
+    (pctIndex p n).floor ≤ (pctIndex p n).ceil ∧ (pctIndex p n).ceil < n :=
+  ⟨Dy.floor_le_ceil _, pctIndex_ceil_lt p n hp hn hbig⟩
+
+/-- C12.2c the percentile exactly as coded: the result is the interpolation
+`lower + (upper − lower)·(k − ⌊k⌋)` (each operation rounded to float64) between the ⌊k⌋-th and ⌈k⌉-th
+smallest elements, or the ⌊k⌋-th smallest element itself when k is integral; the caller's slice keeps its
+elements. -/
 theorem percentile_as_coded (arr : List Nat) (p : Nat) (hne : arr ≠ []) (hp : p ≤ 100)
-    (hck : (pctIndex p arr.length).ceil < arr.length) :
+    (hbig : 100 * arr.length < 2 ^ 52) :
     (pct arr p).1 = lerp (sortN arr) (pctIndex p arr.length) ∧ (pct arr p).2 ~ arr :=
-  ⟨pct_spec arr p hne hp hck, pct_snd_perm arr p⟩
+  ⟨pct_spec arr p hne hp (pctIndex_ceil_lt p arr.length hp (length_pos_iff.2 hne) hbig), pct_snd_perm arr p⟩
 
 /-- out-of-range percentiles and empty arrays give 0 -/
 theorem percentile_degenerate (arr : List Nat) (p : Nat) (h : arr = [] ∨ p > 100) :
@@ -268,18 +277,17 @@ theorem red_rows (spans : List Span) :
     obtain ⟨v, _, rfl⟩ := mem_map.1 hrow
     exact ⟨rfl, rfl, rfl, rfl⟩
 
-/-- C12.5b the four latencies of a row are the percentiles (formula of C12.2b) of the service's entry-span
+/-- C12.5b the four latencies of a row are the percentiles (formula of C12.2c) of the service's entry-span
 durations in ms — although the code reuses one slice that every selection reorders in place. -/
 theorem red_percentiles (spans : List Span) (svc : Nat) (hne : entryDurs spans svc ≠ [])
-    (h50 : (pctIndex 50 (entryDurs spans svc).length).ceil < (entryDurs spans svc).length)
-    (h90 : (pctIndex 90 (entryDurs spans svc).length).ceil < (entryDurs spans svc).length)
-    (h95 : (pctIndex 95 (entryDurs spans svc).length).ceil < (entryDurs spans svc).length)
-    (h99 : (pctIndex 99 (entryDurs spans svc).length).ceil < (entryDurs spans svc).length) :
+    (hbig : 100 * (entryDurs spans svc).length < 2 ^ 52) :
     (redRow spans svc).p50 = lerp (sortN (entryDurs spans svc)) (pctIndex 50 (entryDurs spans svc).length) ∧
     (redRow spans svc).p90 = lerp (sortN (entryDurs spans svc)) (pctIndex 90 (entryDurs spans svc).length) ∧
     (redRow spans svc).p95 = lerp (sortN (entryDurs spans svc)) (pctIndex 95 (entryDurs spans svc).length) ∧
     (redRow spans svc).p99 = lerp (sortN (entryDurs spans svc)) (pctIndex 99 (entryDurs spans svc).length) :=
-  redRow_percentiles spans svc hne h50 h90 h95 h99
+  have hn := length_pos_iff.2 hne
+  redRow_percentiles spans svc hne (pctIndex_ceil_lt 50 _ (by omega) hn hbig) (pctIndex_ceil_lt 90 _ (by omega) hn hbig)
+    (pctIndex_ceil_lt 95 _ (by omega) hn hbig) (pctIndex_ceil_lt 99 _ (by omega) hn hbig)
 
 /-! ## non-vacuity -/
 
@@ -305,9 +313,7 @@ example : treeView [⟨1, 0, false, 1, 5, 9, false⟩, ⟨2, 0, false, 1, 6, 9, 
 /-- quick-select on an array long enough for the median-of-medians path -/
 example : quickSelect [9, 1, 8, 2, 7, 3, 6, 4, 5, 0, 11] 4 = some 4 := by decide
 set_option maxRecDepth 100000 in
-/-- the percentile guard is satisfiable and the value is the expected float (4.7 = 0x4012cccccccccccd) -/
-example : (pctIndex 90 4).ceil < 4 := by decide
-set_option maxRecDepth 100000 in
+/-- a percentile that interpolates: p90 of [1,2,4,5] = 4.7 = 0x4012cccccccccccd -/
 example : ((pct [5, 1, 4, 2] 90).1.map Dy.bits) = some 0x4012cccccccccccd := by decide
 /-- dependency graph: two calls 1→2, one call 2→1, same-service links not counted -/
 example : depGraph [⟨1, 0, false, 1, 0, 5, false⟩, ⟨2, 1, false, 2, 0, 5, false⟩, ⟨3, 1, false, 2, 0, 5, false⟩,
